@@ -38,7 +38,10 @@ class C17(Prop):
 
     def _alphabet(self, c, rng):
         dms = [c["dm0"], c["dm0"] + rng.choice((5.0, 40.0, 200.0)), max(0.0, c["dm0"] - rng.choice((3.0, 25.0)))]
-        ps = [c["period0"], c["period0"] * (1 + rng.choice((1e-5, 3e-5, 1e-4))), c["period0"] * (1 - rng.choice((2e-5, 7e-5)))]
+        # one fine and one coarse period step: the coarse one is large enough to change the rounded per-sub-band
+        # bin delays if a DM drift were (wrongly) computed with the current instead of the folding period
+        ps = [c["period0"], c["period0"] * (1 + rng.choice((1e-5, 3e-5, 1e-4))),
+              c["period0"] * rng.choice((0.7, 0.9, 1.2, 1.5))]
         return [["dm", v] for v in dms] + [["p", v] for v in ps]
 
     def gen(self, rng, tier):
@@ -52,7 +55,8 @@ class C17(Prop):
                     cases.append(dict(c, hist=[list(o) for o in hist]))
         for _ in range(100 if tier == "quick" else 1500):
             c = self._base(rng)
-            alpha = self._alphabet(c, rng) + [["dm", rng.uniform(0, 300)], ["p", c["period0"] * (1 + rng.uniform(-2e-4, 2e-4))]]
+            alpha = self._alphabet(c, rng) + [["dm", rng.uniform(0, 300)], ["p", c["period0"] * (1 + rng.uniform(-2e-4, 2e-4))],
+                                                ["p", c["period0"] * rng.uniform(0.5, 2.0)]]
             cases.append(dict(c, hist=[list(rng.choice(alpha)) for _ in range(rng.randint(1, 8))]))
         if tier == "quick":
             rng.shuffle(cases)
@@ -63,7 +67,10 @@ class C17(Prop):
         c = {"shape": [2, 2, 16], "nchans": 64, "nsamples": 5000000, "tsamp": 64e-6, "period0": 0.0372, "dm0": 30.0, "dseed": 7}
         return [dict(c, hist=[["dm", 70.0], ["dm", 70.0]]), dict(c, hist=[["dm", 70.0], ["dm", 30.0]]),
                 dict(c, hist=[["p", 0.0372 * (1 + 1e-4)], ["p", 0.0372]]),
-                dict(c, hist=[["dm", 70.0], ["p", 0.0372 * (1 + 1e-4)], ["dm", 45.0]])]
+                dict(c, hist=[["dm", 70.0], ["p", 0.0372 * (1 + 1e-4)], ["dm", 45.0]]),
+                # order independence across a coarse period step
+                dict(c, hist=[["p", 0.0372 * 1.2], ["dm", 90.0]]), dict(c, hist=[["dm", 90.0], ["p", 0.0372 * 1.2]]),
+                dict(c, hist=[["p", 0.0372 * 0.7], ["dm", 150.0], ["p", 0.0372], ["dm", 150.0]])]
 
     # ------------------------------------------------------------------
     def observe(self, case):
